@@ -3,7 +3,7 @@
    Schema/StoreModel.v, the vocabulary Spec/StoreSpec.v. *)
 From PyGql Require Import Spec.StoreSpec Proofs.StoreProofs Proofs.StoreHeal Proofs.StoreLoop
      Proofs.StoreFrame Proofs.StoreClone Proofs.StoreOps Proofs.StoreTerm Proofs.StoreObserve
-     Spec.StoreExtSpec Proofs.StoreExtendP Proofs.StoreExtPres Proofs.StoreVis Proofs.StoreVisM Proofs.StoreCloneP Proofs.StoreDesc Proofs.StoreXform.
+     Spec.StoreExtSpec Proofs.StoreExtendP Proofs.StoreExtPres Proofs.StoreVis Proofs.StoreVisM Proofs.StoreCloneP Proofs.StoreDesc Proofs.StoreXform Proofs.StoreCamelC.
 Local Open Scope N_scope.
 
 (* Schema(query, mutation, subscription, directives, types): whenever the
@@ -204,8 +204,8 @@ Theorem C14_clone_preserved : forall fuel m s m' s',
   (fresh_ok m' /\ wf_reg m' (s_types s') /\
    forall n o, In (n, o) (s_types s') -> is_builtin o = false -> exists t, In (n, t) (s_types s) /\ is_builtin t = false) /\
   forall n t, In (n, t) (s_types s) -> is_builtin t = false ->
-    exists t', alookup n (s_types s') = Some t' /\ type_cloned m' n t t'.
-Proof. exact clone_preserved. Qed.
+    exists t', alookup n (s_types s') = Some t' /\ type_cloned m' n t t' /\ type_linked (s_types s') m' t t'.
+Proof. exact clone_preserved_core. Qed.
 Print Assumptions C14_clone_preserved.
 
 (* transform_schema(schema, VisibilitySchemaTransform), for every predicate
@@ -240,18 +240,24 @@ Theorem C14_camel_preserved : forall fuel c m s m' s',
 Proof. exact transform_camel_desc. Qed.
 Print Assumptions C14_camel_preserved.
 
-(* full statements (not proved): completeness -- after camel-casing no member
-   and no argument is missing (the descent above is one-for-one), after the
-   visibility transform exactly the members rejected by a predicate or whose
-   type was removed are missing *)
-Definition C14_camel_complete_full : Prop :=
-  forall fuel c m s m' s',
-    fresh_ok m -> builtins_ok m -> closed m s -> wf_schema m s -> wf_builtins s ->
-    transform fuel (camel_visitor c) m s = Ok (m', s') ->
-    forall n t, In (n, t) (s_types s) -> is_builtin t = false ->
-      exists t', alookup n (s_types s') = Some t' /\
-        length (match mget m' t' with Some (OType _ _ _ ms _ _ _) => ms | _ => [] end) =
-        length (match mget m t with Some (OType _ _ _ ms _ _ _) => ms | _ => [] end).
+(* Completeness of camel-casing: nothing is lost. Every non-specified type of
+   the source is registered in the result under its name, and ([tfull] of
+   Proofs/StoreCamelC.v) the registered object has the source's name, kind,
+   description, resolver and directives and its members are the source's
+   members ONE FOR ONE and in order, each with the renamed name and the other
+   attributes of its source, and each field with the source field's arguments
+   one for one and in order. (The healing pass that follows the renaming
+   drops nothing because renamed copies keep their type reference, and the
+   order-preserving descent of C14_camel_preserved between lists of equal
+   length is one-for-one.) *)
+Theorem C14_camel_complete : forall fuel c m s m' s',
+  fresh_ok m -> builtins_ok m -> closed m s -> wf_schema m s -> wf_builtins s ->
+  (forall n t, In (n, t) (s_types s) -> is_builtin t = false -> src_sorted (mget m) t) ->
+  transform fuel (camel_visitor c) m s = Ok (m', s') ->
+  forall n t, In (n, t) (s_types s) -> is_builtin t = false ->
+    exists o, alookup n (s_types s') = Some o /\ is_builtin o = false /\ tfull (mget m) c m' n o t.
+Proof. exact transform_camel_complete. Qed.
+Print Assumptions C14_camel_complete.
 
 (* full statement (not proved): the result of an operation does not depend on
    the operations applied to the same source before *)
